@@ -11,6 +11,7 @@ ROOT = os.path.dirname(os.path.abspath(__file__))
 tag, prefix = sys.argv[1], sys.argv[2]
 props = sys.argv[3:] or ["C%02d" % k for k in range(1, 21)]
 ORIGIN = {
+    "r10": "fresh sub-agent, round 10: given only the property (title, statement, quantifier, why the tests cannot settle it, anchor list) and a scratch worktree, with the request for three changes of three kinds: (1) state that outlives a call - a memo, cache, thread-local, reused buffer or altered object that makes the FIRST call right and a LATER, colliding call wrong; (2) a standard-library / dependency call replaced by a near-equivalent sibling that differs for rare inputs; (3) a compensating pair - two sites changed consistently so that the library still agrees with itself on every round trip but no longer with the published standard for a rare class of inputs",
     "r8": "fresh sub-agent, round 8 (refactorings): given only the property with its anchors and a scratch worktree, with the request for two plausible refactorings of 15-60 lines on the property's path (extracted helper, merged duplicates, loop <-> iterator, changed data structure, moved cache / early return, recursion -> iteration, tightened types) that read as behaviour-preserving but are not for some rare legitimate input or call sequence",
     "r7": "fresh sub-agent, round 7 (regressions): given only the property with its anchors and a scratch worktree that carries the library's git history, with the request for three changes that each bring back, wholly or preferably partially, the defect repaired by a different `fix:` commit (one hunk reverted, the fix lost for a sub-case by a refactor, a condition narrowed, a twin entry point taking the old path)",
     "r6": "fresh sub-agent, round 6: given only the property (title, statement, quantifier, why the tests cannot settle it, anchor list) and a scratch worktree — no description of any checker — with the request for three changes that differ in where they sit: one in a helper / trait / utility that the anchored code calls but that lies outside the anchored functions, one in an impl, constructor, setter or conversion of the types involved, one in the anchored algorithm that needs two independent conditions at once",
